@@ -40,8 +40,11 @@ def gen_inp(rng, allow_ens=True):
     members = rng.randint(1, 4) if (allow_ens and rng.random() < 0.4) else 0
     others = rng.sample(["spread", "tmin"], rng.randint(1, 2)) if rng.random() < 0.3 else []
     has = ["obs", "fcst"] + (["pit"] if rng.random() < 0.4 else [])
-    if rng.random() < 0.1:
+    r_ = rng.random()
+    if r_ < 0.1:
         has.remove("obs")
+    elif r_ < 0.25 and (prob or members):
+        has.remove("fcst")          # a purely probabilistic / ensemble file: observations but no deterministic forecast
     nt, nl, ns = rng.randint(1, 5), rng.randint(1, 5), rng.randint(1, 4)
     times = gen.pick_times(rng, nt)
     leads = sorted(rng.sample([0, 1, 1.5, 3, 6, 12, 24, 36, 48, 240], nl))
@@ -249,11 +252,11 @@ def run_pair(desc, ctx):
         # scores agree exactly
         if "obs" not in inp["has"]:
             continue
-        metrics = ["mae", "rmse", "corr", "bias"]
+        metrics = ["mae", "rmse", "corr", "bias"] if "fcst" in inp["has"] else ["obs", "obs"]
         axes = ["leadtime", "time", "no"] + (["location"] if st["vars"]["location"] else [])
         argvs = [["-m", m, "-x", rng.choice(axes)] for m in rng.sample(metrics, 2)]
         vals = sorted(set(v for c in inp["cells"].values() for v in (c.get("obs"), c.get("fcst")) if v is not None))
-        if vals:
+        if vals and "fcst" in inp["has"]:
             argvs.append(["-m", "ets", "-r", gen.fnum(rng.choice(vals)), "-b", rng.choice(["above", "below=", "above="])])
         if inp["thresholds"]:
             argvs.append(["-m", rng.choice(["bs", "bss", "bsrel", "ign0"]), "-r", gen.fnum(rng.choice(inp["thresholds"])), "-x", "leadtime"])
